@@ -1,13 +1,13 @@
-//! vh — implementation side of the correspondence check.
-//! Reads case lines "stream.op arg arg ..." on stdin, runs the real chia_rs code on each
-//! (under catch_unwind), prints one result line per case in the format the Coq model prints.
+//! vh — implementation side of the correspondence check (shared library part).
+//! Each unit has its own binary src/bin/vh_<unit>.rs which calls `vh::serve(run)`:
+//! read case lines "stream.op arg arg ..." on stdin, run the real chia_rs code on each
+//! (under catch_unwind), print one result line per case in the format the Coq model prints.
 use std::io::{self, BufRead, Write};
 use std::panic;
 
-mod streams;
 pub mod util;
 
-fn main() {
+pub fn serve(run: fn(&str, &[String]) -> Option<String>) {
     // silence panic messages: a panic is an outcome, reported on the result line
     panic::set_hook(Box::new(|_| {}));
     let stdin = io::stdin();
@@ -18,11 +18,12 @@ fn main() {
         let toks: Vec<&str> = line.split(' ').collect();
         let name = toks[0].to_string();
         let args: Vec<String> = toks[1..].iter().map(|s| s.to_string()).collect();
-        let r = panic::catch_unwind(move || streams::dispatch(&name, &args));
+        let r = panic::catch_unwind(move || run(&name, &args));
         match r {
             Ok(Some(s)) => writeln!(out, "{}", s).unwrap(),
             Ok(None) => writeln!(out, "ERR-UNKNOWN-STREAM").unwrap(),
             Err(_) => writeln!(out, "PANIC").unwrap(),
         }
+        out.flush().unwrap();
     }
 }
